@@ -1128,7 +1128,11 @@ class Chemical:
         return self._Tm
     @Tm.setter
     def Tm(self, Tm):
-        reset_constant(self, 'Tm', float(Tm))
+        Tm = float(Tm)
+        # Keep the entropy of fusion consistent (Sfus = Hfus / Tm), unless it was set independently
+        derived = self._Sfus is None or (self._Tm and self._Hfus is not None and self._Sfus == self._Hfus / self._Tm)
+        reset_constant(self, 'Tm', Tm)
+        if derived and Tm and self._Hfus is not None: self._Sfus = self._Hfus / Tm
         self.reset_free_energies()
     
     @property
@@ -1186,7 +1190,11 @@ class Chemical:
         return self._Hfus
     @Hfus.setter
     def Hfus(self, Hfus):
-        reset_energy_constant(self, 'Hfus', float(Hfus))
+        Hfus = float(Hfus)
+        # Keep the entropy of fusion consistent (Sfus = Hfus / Tm), unless it was set independently
+        derived = self._Sfus is None or (self._Tm and self._Hfus is not None and self._Sfus == self._Hfus / self._Tm)
+        reset_energy_constant(self, 'Hfus', Hfus)
+        if derived and self._Tm: reset_energy_constant(self, 'Sfus', Hfus / self._Tm)
     
     @property
     def Sfus(self):
